@@ -15,7 +15,7 @@ import numpy as np
 from sim import boot
 from sim.boot import CLOCK
 from sim.util import SimAbort, cjson, dig, tt_copy, wellformed_tt
-from sim.world import Monitor, captured_stdout, gen, make_tt
+from sim.world import Monitor, captured_stdout, gen, make_tt, poison_heap
 
 teneva = boot.boot()
 
@@ -116,6 +116,11 @@ def generate(rng, prop, tier):
             sc['n'] = [rng.choice([2, 3, 4]) for _ in range(d)]
             sc['r'] = rng.randint(1, 2)
             sc['rmax'] = sc['r'] + rng.randint(0, 3)
+            if rng.random() < 0.3:
+                # start tensors with ranks a neighbouring mode cannot carry (still <= r): the set-up of the adaptive mode lowers them
+                sc['n'] = [rng.choice([1, 2, 2, 3]) for _ in range(d)]
+                sc['r'] = rng.randint(2, 4)
+                sc['rmax'] = sc['r'] + rng.randint(0, 2)
             sc['m'] = rng.choice([30, 60, 100])
             sc['single'] = None
             if rng.random() < 0.5:
@@ -320,6 +325,8 @@ def run_job(sc, I, y, w, Y0, nswp, cb_at=None, jump=0.0, e=None, extra=None, kee
     o = Obs()
     o.events = []
     CLOCK.reset()
+    if sc['dseed'] % 3 == 0:
+        poison_heap(0x5A)          # fault: uninitialised memory the solver allocates holds an adversarial pattern
     o.info = {} if info is None else info
     o.exc = None
     o.abort = None
@@ -641,6 +648,8 @@ def execute_contract(sc):
             return finish(sc, V, stats, runs, 0.0, h, 0)
         g = gen(sc['dseed'] + 3)
         k = ks[int(g.integers(0, len(ks)))]
+        if 1 in ks and g.random() < 0.4:
+            k = 1                                   # the core updated last: its other slices are checked for optimality below
         j = int(g.integers(0, n[k]))
         keep = I[:, k] != j
         I2, y2 = I[keep], y[keep]
@@ -672,6 +681,12 @@ def execute_contract(sc):
                 J1 = objective(sc, o.Y, I2, y2, w2)
                 if not J1 <= J0 * (1 + 1e-10):
                     V.append(viol('descent', 'allow_skip_cores run increased the objective %.6g -> %.6g' % (J0, J1)))
+                # ... and the core updated last is at its minimiser on every slice that has data
+                res = optimality_residual(sc, o.Y, I2, y2, w2, 1)
+                P('optimality_checked')
+                if not res <= 1e-8:
+                    V.append(viol('optimality', 'allow_skip_cores run (no data for slice %d of mode %d): core 1 (updated last) is not at the minimiser on its slices with data: '
+                                  'normal-equation residual %.3e' % (j, k, res)))
             h.append([G.tobytes() for G in (o.Y or [])])
     elif cl == 'adaptive':
         rmax = sc['rmax']
